@@ -134,6 +134,11 @@ class C09(Check):
                               delays=delays, hier=rng.random() < 0.2,
                               # multi-operator nodes: the delayed source variable is also read by a second operator of its node
                               readouts=(0.5, 0.0) if rng.random() < 0.3 else None)
+        if stratum in ('S-alldelayed', 'S-mixed') and rng.random() < 0.12:
+            # feature interaction: complex-valued state variables on delayed edges (ring buffers must carry complex values)
+            spec = models.gen_net(rng, n_nodes=rng.randint(2, 5), libs=('cz',), max_edges=6, delays=delays, build='python')
+            cfg['precision'] = 'complex128'
+            cfg['prelude'] = None
         if stratum in ('S-alldelayed', 'S-mixed', 'S-hub') and rng.random() < 0.25:
             # feature interaction: an extrinsic input into a circuit with ring-buffer delays (run mode, one sample per step)
             cfg['input'] = {'amp': rng.choice([0.5, 1.0, -0.25]), 'pick': rng.random()}
@@ -142,7 +147,7 @@ class C09(Check):
             cfg.update({'backend': 'fortran', 'vectorize': False, 'mode': 'run', 'solver': 'euler', 'prelude': None,
                         'sparseness': None})
             cfg['steps'] = min(cfg['steps'], 30)
-        if stratum in ('S-alldelayed', 'S-mixed') and not spec.get('circuits') and rng.random() < 0.25:
+        if stratum in ('S-alldelayed', 'S-mixed') and not spec.get('circuits') and 'precision' not in cfg and rng.random() < 0.25:
             # feature interaction: coupling operators (EdgeTemplates) on DELAYED edges - the edge delivers what its operator
             # computed from the values of round(d/dt) steps ago, and nothing before that
             models.add_edge_templates(rng, spec, p=0.6, delayed=True)
@@ -361,11 +366,11 @@ class C09(Check):
                     kw['inputs'] = {f"{inode}/{iop}/{models.LIB[iinst['lib']]['in']}": u_ext}
                     ext_in[(inode, iop)] = u_ext
                     bump('extrinsic_input')
-                c.run(T, dt, outputs=outputs, solver=cfg['solver'], vectorize=cfg['vectorize'], float_precision='float64',
-                      decorator=rec, verbose=False, **skw, **kw)
+                c.run(T, dt, outputs=outputs, solver=cfg['solver'], vectorize=cfg['vectorize'],
+                      float_precision=cfg.get('precision', 'float64'), decorator=rec, verbose=False, **skw, **kw)
             else:
                 bump('own_stepping')
-                f, args, anames, smap = c.get_run_func('vf', dt, vectorize=cfg['vectorize'], float_precision='float64',
+                f, args, anames, smap = c.get_run_func('vf', dt, vectorize=cfg['vectorize'], float_precision=cfg.get('precision', 'float64'),
                                                        decorator=rec, verbose=False, solver='euler', **kw)
                 y = np.array(args[1], copy=True)
                 rest = args[2:]          # the SAME argument tuple throughout: ring buffers live in it
@@ -403,7 +408,8 @@ class C09(Check):
                 V('L-init', 'silent', 'initial-state', f'declared initial value {decl[n]} of {n} at positions {hits} of {y0.tolist()}')
                 return res
             pos[n] = hits[0]
-        traj = [{n: float(np.asarray(E[k * per][1]).reshape(-1)[p]) for n, p in pos.items()} for k in range(steps)]
+        num = (lambda x: complex(x)) if cfg.get('precision', 'float64').startswith('complex') else float
+        traj = [{n: num(np.asarray(E[k * per][1]).reshape(-1)[p]) for n, p in pos.items()} for k in range(steps)]
         # ---- edges: (src name, tgt (node, op) key, weight, n_steps)
         checked = 0
         active = False
@@ -468,8 +474,8 @@ class C09(Check):
                 bump('mixed_same_source')
             for e, (t, y, r) in enumerate(E):
                 k = e // per
-                yn = {n: float(np.asarray(y).reshape(-1)[p]) for n, p in pos.items()}
-                rn = {n: float(np.asarray(r).reshape(-1)[p]) for n, p in pos.items()}
+                yn = {n: num(np.asarray(y).reshape(-1)[p]) for n, p in pos.items()}
+                rn = {n: num(np.asarray(r).reshape(-1)[p]) for n, p in pos.items()}
                 got = net.recover_inputs(yn, rn)
                 for (node, opn), g in got.items():
                     if net.inst[(node, opn)]['lib'] == 'rd':
@@ -493,7 +499,7 @@ class C09(Check):
                             # defect model of KF-C09-heun-double-roll: the ring buffer advances once per EVALUATION
                             if e - nd >= 0:
                                 yv_ = np.asarray(E[e - nd][1]).reshape(-1)
-                                want += models.edge_value(a_, ets_, {n_: float(yv_[p_]) for n_, p_ in pos.items()}, s)
+                                want += models.edge_value(a_, ets_, {n_: num(yv_[p_]) for n_, p_ in pos.items()}, s)
                                 active = True
                         elif k - nd >= 0:
                             want += models.edge_value(a_, ets_, traj[k - nd], s)
